@@ -185,6 +185,24 @@ PROPS = {
         partial="'Append rejects nil keys' holds for pointer-typed key fields (c34_append_rejects_nil_partial) and is refuted for enum/identityref/union keys (known finding); uniqueness "
                 "of YANG key values is refuted for wrapper unions (known finding).",
     ),
+    "C17": dict(
+        level="proof",
+        technique="Coq proof (value -> name -> value on well-formed tables, UNSET/undefined handling, a verified table checker) + regenerated-table obligation (every generated table, every run) + differential correspondence check",
+        claim="For the transcription of enumFieldToString/EnumName/EnumLogString and their callers and of castToEnumValue: on a table accepted by tbl_okb_full (values distinct, names "
+              "distinct, 0 not defined, names non-empty without ':') every defined non-zero value renders to its name or module:name and each form parses back to the same value "
+              "(c17_bijection, c17_render_parse, c17_bijection_json), names are unique (c17_names_unique), a field holding UNSET is never rendered (c17_unset_not_rendered_partial), "
+              "undefined values make every renderer fail (c17_undefined_errors); tbl_okb_full decides the declarative statement (c17_tbl_ok_spec). Every run regenerates every ΛEnum "
+              "table of the generated packages and of the enum-naming flag matrix and re-proves c17_all_generated_tables_ok by vm_compute, lifted by c17_lift.",
+        note="Trusted: Coq kernel; hand transcription tied by the 'enum' stream; the table translator lib/c17_pre.py (regexp over the ΛEnum literal; cross-checked against the compiled "
+             "maps every run); goyang as the independent reader of enum/identity statements. Translation validation: the generator itself is not modelled beyond its numbering.",
+        coq_files=["Tree/Codec", "Tree/CodecProofs", "Scalar/EnumTable", "Scalar/EnumTableProofs", "Corr/EnumCorr"],
+        streams=[dict(name="enum", n=N(5000, 12000))],
+        signatures=["enum/"],
+        pre=lambda tier, seed: __import__("c17_pre").pre(tier, seed),
+        trusted=["lib/c17_pre.py parses the generated Go source", "castToEnumValue ranges over a Go map: first match in ascending value order in the model (same on tables with distinct names)"],
+        partial="c17_unset_not_rendered_partial covers struct fields and union members in JSON; the full statement is refuted (c17_unset_refuted: EnumName/KeyValueAsString/EncodeTypedValue/"
+                "leaf-list elements render UNSET as \"\", wrapper unions panic: known findings). 'All schemas' is per-run validation of the corpus x flag matrix.",
+    ),
 }
 
 NOT_APPLICABLE = {}
